@@ -142,17 +142,17 @@ class CFG:
                                     for blk in self.body.blocks) or False
             if not self._has_try:
                 return False
-        key = (a, b)
+        if isinstance(b, tuple):
+            return False
         cache = self.__dict__.setdefault("_fdom", {})
-        if key not in cache:
+        if a not in cache:
+            # one feasible reachability per avoided node, shared by all queries about it
             from .mirutil import feasible_reach
-            if isinstance(b, tuple):
-                cache[key] = False
-            elif isinstance(a, tuple):
-                cache[key] = b not in feasible_reach(self.body, [0], avoid_edges=[a])
+            if isinstance(a, tuple):
+                cache[a] = feasible_reach(self.body, [0], avoid_edges=[a])
             else:
-                cache[key] = b not in feasible_reach(self.body, [0], avoid_blocks=[a])
-        return cache[key]
+                cache[a] = feasible_reach(self.body, [0], avoid_blocks=[a])
+        return b not in cache[a]
 
     def edge(self, src, dst=None, slot=None):
         """Edge node(s) from src to dst."""
